@@ -30,32 +30,4 @@ def optL (c : OptCfg) : List Tree → List Tree
   | t :: ts => opt c t :: optL c ts
 end
 
-mutual
-/-- would the whole subtree collapse into one constant: a constant, or a tuple of such -/
-def foldable (c : OptCfg) : Tree → Bool
-  | .node k _ fs =>
-    k == c.const || (k == c.tuple && match fs with
-      | [.list elts, _] => foldableL c elts
-      | _ => false)
-  | _ => false
-def foldableL (c : OptCfg) : List Tree → Bool
-  | [] => true
-  | t :: ts => foldable c t && foldableL c ts
-end
-
-mutual
-/-- no store/del-context tuple is made only of constants and (recursively) of such tuples -/
-def noFoldableStoreTuple (c : OptCfg) : Tree → Bool
-  | .leaf _ => true
-  | .none => true
-  | .some t => noFoldableStoreTuple c t
-  | .list xs => noFoldableStoreTupleL c xs
-  | .node k r fs =>
-    noFoldableStoreTupleL c fs &&
-    !(k == c.tuple && Opt.ctxOf fs != some loadText && foldable c (.node k r fs))
-def noFoldableStoreTupleL (c : OptCfg) : List Tree → Bool
-  | [] => true
-  | t :: ts => noFoldableStoreTuple c t && noFoldableStoreTupleL c ts
-end
-
 end PV.C12.Spec
